@@ -115,3 +115,30 @@ Proof.
   destruct (keep_decode Rk p BContig (TyRef 0) tvk eq_refl Hp eq_refl eq_refl eq_refl eq_refl w0 eq_refl) as (ss & Hw & Hr).
   exists ss. split; [exact Hw|]. apply Hr; [vm_compute; lia|apply idle_r0].
 Qed.
+
+(* the message-level slice statement *)
+Theorem keep_chunk_slice : forall p k c fs ss id x,
+  p <> PCompact -> w_pend c = None -> wt (VStruct fs) = true ->
+  write_val p k (VStruct fs) c = Ok (ss, c) -> In (id, x) fs ->
+  exists a b, flat ss = a ++ fbytes p k c id x ++ b.
+Proof.
+  intros p k c fs ss id x Hb Hc Hwt Hw Hin. rewrite wt_struct in Hwt.
+  change (write_val p k (VStruct fs)) with (w_struct_begin p ;; write_fields p k fs ;; w_field_stop p ;; w_struct_end p) in Hw.
+  apply wseq_inv in Hw as (s1 & c1 & s5 & H & H5 & ->).
+  apply wseq_inv in H as (s2 & c2 & s4 & H & H4 & ->).
+  apply wseq_inv in H as (s0 & c0 & sf & H0 & Hf & ->).
+  rewrite (bin_struct_begin_w p c Hb) in H0. injection H0 as <- <-.
+  assert (Ec2 : c2 = c).
+  { destruct (roundtrip_val p k (VStruct fs) ltac:(rewrite wt_struct; exact Hwt) c Hc) as (ss' & Hw' & _).
+    change (write_val p k (VStruct fs)) with (w_struct_begin p ;; write_fields p k fs ;; w_field_stop p ;; w_struct_end p) in Hw'.
+    apply wseq_inv in Hw' as (t1 & d1 & t5 & Hw' & _ & _). apply wseq_inv in Hw' as (t2 & d2 & t4 & Hw' & G4 & _).
+    apply wseq_inv in Hw' as (t0 & d0 & tf & G0 & Gf & _).
+    rewrite (bin_struct_begin_w p c Hb) in G0. injection G0 as _ <-. rewrite Hf in Gf. injection Gf as _ <-.
+    destruct p; try congruence; unfold w_field_stop, wseq, assert_no_pending_w in G4;
+      destruct (w_pend c2) eqn:Ep; cbn [bind] in G4; try discriminate.
+    all: clear -H4 H5; unfold w_field_stop, wseq, assert_no_pending_w, w_byte, wret in H4; cbn [bind] in H4;
+         injection H4 as _ <-; cbn [w_struct_end] in H5; injection H5 as _ <-; reflexivity. }
+  subst c2.
+  destruct (write_fields_slice p k c Hb Hc fs sf Hwt Hf id x Hin) as (a & b & E).
+  exists a, (b ++ flat s4 ++ flat s5). cbn [app]. rewrite !flat_app, E, <- !app_assoc. reflexivity.
+Qed.
